@@ -22,7 +22,8 @@ Definition err_eqb (a b : err) : bool :=
   match a, b with
   | EEntryIsEmpty, EEntryIsEmpty | EClosed, EClosed | EReadOnly, EReadOnly
   | EInvalidNamespace, EInvalidNamespace | EBadSignature, EBadSignature | EFuture, EFuture
-  | EInvalidEmpty, EInvalidEmpty | ENewerExists, ENewerExists | EStore, EStore => true
+  | EInvalidEmpty, EInvalidEmpty | ENewerExists, ENewerExists | EStore, EStore
+  | EDecode, EDecode | EPanic, EPanic => true
   | _, _ => false
   end.
 Definition result_eqb (a b : result) : bool :=
